@@ -99,7 +99,16 @@ fn operations(w: &World, variant: &str) -> Vec<(&'static str, Box<dyn Fn() -> St
             Err(e) => format!("err: {e}"),
         })
     };
+    let republish = || -> Box<dyn Fn() -> String + Send> {
+        let k = k.clone();
+        Box::new(move || match k.ca_manager().republish_all(true, &k) {
+            Ok(_) => "ok".into(),
+            Err(e) => format!("err: {e}"),
+        })
+    };
     match variant {
+        // the periodic re-publication (here forced) against a change of the same CA
+        "republish" => vec![("roa", roa("ca", "10.0.2.0/24 => 65000")), ("republish", republish())],
         "same-ca" => vec![("roa", roa("ca", "10.0.2.0/24 => 65000")), ("aspa", aspa())],
         "parent-child" => vec![("entitle", entitle("10.0.0.0/16")), ("sync-parent", sync_parent())],
         "two-cas" => vec![("roa-ca", roa("ca", "10.0.2.0/24 => 65000")), ("roa-parent", roa("parent", "10.9.0.0/24 => 65009"))],
@@ -357,9 +366,9 @@ pub fn run(tier: &Tier, args: &[String]) -> i32 {
     };
     crate::keys::skip(keys_used + 8);
     let variants: Vec<(&str, bool)> = if tier.thorough {
-        vec![("same-ca", true), ("parent-child", true), ("two-cas", true), ("repo", true), ("rrdp", true), ("same-ca", false), ("parent-child", false)]
+        vec![("same-ca", true), ("parent-child", true), ("two-cas", true), ("repo", true), ("rrdp", true), ("republish", true), ("same-ca", false), ("parent-child", false)]
     } else {
-        vec![("same-ca", true), ("parent-child", true), ("two-cas", true), ("repo", true), ("rrdp", true), ("parent-child", false)]
+        vec![("same-ca", true), ("parent-child", true), ("two-cas", true), ("repo", true), ("rrdp", true), ("republish", true), ("parent-child", false)]
     };
     let only = crate::report::arg_value(args, "--variant");
     let mut runs = Vec::new();
